@@ -87,8 +87,9 @@ impl Epoch {
                     days_in_year -= 1.0;
                 }
             }
-            if days_in_year < 0.0 {
+            while days_in_year < 0.0 {
                 // We've underflowed the number of days in a year because of the leap years
+                // (by more than one year after the 35th century: there are over 365 leap years between 1900 and then).
                 year -= 1;
                 days_in_year += DAYS_PER_YEAR_NLD;
                 // If we had incorrectly removed one day of the year in the previous loop, fix it here.
@@ -103,12 +104,16 @@ impl Epoch {
                 }
             }
             // Check for greater than or equal because the days are still zero indexed here.
-            if (days_in_year >= DAYS_PER_YEAR_NLD && !is_leap_year(year))
+            while (days_in_year >= DAYS_PER_YEAR_NLD && !is_leap_year(year))
                 || (days_in_year >= DAYS_PER_YEAR_NLD + 1.0 && is_leap_year(year))
             {
                 // We've overflowed the number of days in a year because of the leap years
-                year += 1;
+                // (by more than one year before the 4th century), so move on by the length of this year.
                 days_in_year -= DAYS_PER_YEAR_NLD;
+                if is_leap_year(year) {
+                    days_in_year -= 1.0;
+                }
+                year += 1;
             }
         }
 
